@@ -99,6 +99,23 @@ def discharge(ob: Obligation, *, thorough=False, timeout_ms=None, keep_smt2=Fals
             res.cex_all = ob.meta.get('cex_all')
         res.seconds = time.time() - t0
         return res
+    if ob.kind == 'exists':
+        # synthesis query: discharged iff the constraints are satisfiable; the model is the certificate
+        s = z3.Solver(); s.set('timeout', timeout_ms or 60000); s.set('random_seed', 0)
+        for h in ob.hyps: s.add(h)
+        r = s.check()
+        res.backend = 'z3-5.1(synthesis)'
+        if r == z3.sat:
+            res.status = 'discharged'
+            try: res.meta = dict(res.meta, certificate=(ob.decode(s.model()) if ob.decode else _model_to_json(s.model())))
+            except Exception: pass
+        elif r == z3.unsat:
+            res.status, res.detail = 'refuted', 'no witness of the required shape exists'
+            res.cex = ob.meta.get('cex')
+        else:
+            res.detail = 'z3: ' + s.reason_unknown()
+        res.seconds = time.time() - t0
+        return res
     s = z3.Solver()
     s.set('timeout', timeout_ms or Z3_TIMEOUT_MS)
     s.set('random_seed', 0)
